@@ -5,8 +5,6 @@ import (
 	"encoding/base64"
 	"fmt"
 	"math/big"
-	"os"
-	"time"
 
 	ecommon "github.com/ethereum/go-ethereum/common"
 	ecrypto "github.com/ethereum/go-ethereum/crypto"
@@ -19,8 +17,6 @@ import (
 	"github.com/zenon-network/go-zenon/vm/embedded/definition"
 	"github.com/zenon-network/go-zenon/vm/embedded/implementation"
 	"github.com/zenon-network/go-zenon/wallet"
-
-	"verifmc/internal/vnode"
 )
 
 // actors: the accounts calls are sent from
@@ -413,13 +409,8 @@ func buildMatured(p *pair, env0 *stateEnv) (*stateEnv, string) {
 	n := p.P
 	skip := int((genesisT+maturedAfter-n.Frontier().Timestamp.Unix())/10) - 1
 	// one momentum far in the future (slots in between are missed), produced by whoever is elected for that slot
-	t0 := time.Now()
-	if err := produceSkipping(n, skip); err != nil {
+	if err := n.ProduceMomentumOnly(skip); err != nil {
 		return env, "matured: " + err.Error()
-	}
-	if os.Getenv("C09_TIMING") != "" {
-		fmt.Println("skip momentum:", time.Since(t0))
-		defer func() { fmt.Println("matured total:", time.Since(t0)) }()
 	}
 	if _, err := drainInboxes(n); err != nil {
 		return env, err.Error()
@@ -438,15 +429,7 @@ func buildMatured(p *pair, env0 *stateEnv) (*stateEnv, string) {
 	for _, u := range upd {
 		b.send(stranger, u.to, znn, big.NewInt(0), u.data)
 	}
-	t1 := time.Now()
 	b.step()
-	if os.Getenv("C09_TIMING") != "" {
-		fmt.Println("update step:", time.Since(t1))
-	}
 	b.settle() // the token contract mints what the updates asked for, the liquidity contract receives it
 	return env, b.fail
-}
-
-func produceSkipping(n *vnode.Node, skip int) error {
-	return n.ProduceMomentumOnly(skip)
 }
